@@ -10,6 +10,8 @@ const MUTS: &[&str] = &[
     "var_bad_default", "upload_in_query", "sub_two_roots", "sub_typename", "op_directive", "frag_directive",
     "var_value_bad", "var_missing", "input_obj_scalar", "enum_string", "var_in_frag_undefined", "list_var_nested",
     "unknown_field_ifdef", "enum_default_string",
+    // the four rule defects found by the proof work (each: the deviating shape and its spec-conforming neighbours)
+    "untyped_inline_overlap", "null_default", "stale_args", "literal_beside_var",
 ];
 
 /// the same constant with every enum token written as a string literal
@@ -239,6 +241,54 @@ impl<'a> G<'a> {
             }
             self.applied = false;
         }
+        if self.allow_vars && self.want("null_default") {
+            // `$v: T = null`: the literal null is no default in the sense of IsVariableUsageAllowed.
+            // At a non-null position without location default the usage is INVALID (the rule counts
+            // the default); with a location default, or at a nullable position, it is valid.
+            let supply = match self.rng.below(3) {
+                0 => Some(if ty.is_non_null() { self.const_nn(ty, 1) } else { self.const_value(ty, 1) }),
+                _ => None,
+            };
+            let nm = self.declare(ty.nullable().clone(), Some(V::Null), supply);
+            return V::Var(nm);
+        }
+        if self.allow_vars && self.want("literal_beside_var") {
+            // a literal that mentions a variable beside a wrong (or right) literal part: with the
+            // variable left without value the pinned rule does not judge the argument at all
+            let supplied = self.rng.chance(1, 3);
+            match ty.nullable() {
+                TRef::List(t) => {
+                    let elem = (**t).clone();
+                    let sup = if supplied { Some(self.const_nn(&elem, 1)) } else { None };
+                    let nm = self.declare(elem.nullable().clone(), None, sup);
+                    let other = if self.rng.chance(3, 4) { self.bad_value(elem.nullable()) } else { self.const_nn(&elem, 1) };
+                    let other = if matches!(other, V::Null) { V::Obj(vec![("zzz".into(), V::Int(1))]) } else { other };
+                    let mut xs = vec![V::Var(nm), other];
+                    if self.rng.chance(1, 2) {
+                        xs.swap(0, 1);
+                    }
+                    return V::List(xs);
+                }
+                TRef::Named(n) if n == "Pt" => {
+                    let sup = if supplied { Some(V::Str("t".into())) } else { None };
+                    let nm = self.declare(TRef::Named("String".into()), None, sup);
+                    let mut fs = vec![("tag".to_string(), V::Var(nm))];
+                    match self.rng.below(4) {
+                        0 => fs.push(("x".into(), V::Int(1))),                                   // valid
+                        1 => fs.push(("x".into(), V::Str("bad".into()))),                      // wrong type beside the variable
+                        2 => { fs.push(("x".into(), V::Int(1))); fs.push(("zzz".into(), V::Int(1))) } // undeclared key
+                        _ => {}                                                                 // required `x` missing
+                    }
+                    if self.rng.chance(1, 2) {
+                        fs.reverse();
+                    }
+                    return V::Obj(fs);
+                }
+                _ => {
+                    self.applied = false;
+                }
+            }
+        }
         if self.allow_vars && self.want("var_value_bad") {
             let b = self.bad_value(ty.nullable());
             if !matches!(b, V::Null) {
@@ -442,6 +492,16 @@ impl<'a> G<'a> {
                 self.applied = false;
             }
         }
+        if composite && !f.args.is_empty() && !args.is_empty() && self.want("stale_args") {
+            // below a field WITH arguments: `__typename` carrying an argument (the enclosing field's
+            // name: accepted by a stale `current_args`; another name), or an unknown field carrying
+            // one (the unknown argument is then reported against the ENCLOSING field)
+            let an = if self.rng.chance(1, 2) { args[0].0.clone() } else { "zz".to_string() };
+            let av = if self.rng.chance(1, 2) { args[0].1.clone() } else { V::Int(1) };
+            let av = if matches!(av, V::Var(_)) || !self.rng.chance(1, 2) { V::Int(1) } else { av };
+            let fname = if self.rng.chance(2, 3) { "__typename" } else { "nope" };
+            sels.push(Sel::Field { alias: None, name: fname.into(), args: vec![(an, av)], dirs: vec![], sels: vec![] });
+        }
         if !composite && self.want("leaf_with_sel") {
             sels = vec![Sel::Field { alias: None, name: if self.rng.chance(1, 2) { "id".into() } else { "__typename".into() }, args: vec![], dirs: vec![], sels: vec![] }];
         }
@@ -502,6 +562,39 @@ impl<'a> G<'a> {
             }
         }
         dirs.clear();
+        out
+    }
+
+    /// the same response key behind two different type conditions (Dog / Cat), inside inline
+    /// fragments WITHOUT type condition: (nick, name) and (name, name) merge (String / String),
+    /// (id, name) does not (ID! / String); wrapping one side only hides the pair from the pinned rule
+    fn untyped_overlap(&mut self) -> Vec<Sel> {
+        let (fa, fb): (&str, &str) = [("nick", "name"), ("name", "nick"), ("name", "name"), ("id", "name"), ("friend", "friend")][self.rng.below(5)];
+        let mk = |n: &str| Sel::Field {
+            alias: Some("k".into()),
+            name: n.to_string(),
+            args: vec![],
+            dirs: vec![],
+            sels: if n == "friend" { vec![Sel::Field { alias: None, name: "id".into(), args: vec![], dirs: vec![], sels: vec![] }] } else { vec![] },
+        };
+        let wrap = |s: Sel| Sel::Inline { cond: None, dirs: vec![], sels: vec![s] };
+        let (wa, wb) = match self.rng.below(4) {
+            0 => (true, false),
+            1 => (false, true),
+            _ => (true, true),
+        };
+        let a = if wa { wrap(mk(fa)) } else { mk(fa) };
+        let b = if wb { wrap(mk(fb)) } else { mk(fb) };
+        let mut out = vec![];
+        if self.rng.chance(1, 3) {
+            // through a named fragment on one side
+            let name = self.fresh("F");
+            self.frags.push(Frag { name: name.clone(), cond: "Dog".into(), dirs: vec![], sels: vec![a] });
+            out.push(Sel::Spread { name, dirs: vec![] });
+        } else {
+            out.push(Sel::Inline { cond: Some("Dog".into()), dirs: vec![], sels: vec![a] });
+        }
+        out.push(Sel::Inline { cond: Some("Cat".into()), dirs: vec![], sels: vec![b] });
         out
     }
 
@@ -636,6 +729,10 @@ impl<'a> G<'a> {
             out.push(Sel::Inline { cond: Some("Dog".into()), dirs: vec![], sels: vec![mk(fa)] });
             out.push(Sel::Inline { cond: Some("Cat".into()), dirs: vec![], sels: vec![mk(fb)] });
         }
+        if self.sd.possible(ty).len() >= 2 && self.want("untyped_inline_overlap") {
+            let more = self.untyped_overlap();
+            out.extend(more);
+        }
         if self.allow_vars && self.want("var_in_frag_undefined") {
             // a fragment using a variable no operation defines
             let name = self.fresh("F");
@@ -720,6 +817,52 @@ fn gen_op(sd: &SchemaD, rng: &mut Rng, opty: &str, name: Option<String>, mutatio
             }
         };
         sels.push(Sel::Field { alias, name: fname.into(), args, dirs: vec![], sels: vec![] });
+    }
+    if opty == "query" && !g.applied && g.allow_vars && matches!(g.mutation, "untyped_inline_overlap" | "stale_args" | "literal_beside_var") {
+        // the shape did not come up while generating (it needs an abstract type / a composite field
+        // with arguments / a list or `Pt` argument): add one at the root
+        match g.mutation {
+            "untyped_inline_overlap" => {
+                g.applied = true;
+                let inner = g.untyped_overlap();
+                sels.push(if g.rng.chance(1, 2) {
+                    Sel::Field { alias: None, name: "pet".into(), args: vec![], dirs: vec![], sels: inner }
+                } else {
+                    Sel::Field { alias: Some(g.fresh("a")), name: "node".into(), args: vec![("id".into(), V::Int(1))], dirs: vec![], sels: inner }
+                });
+            }
+            "stale_args" => {
+                g.applied = true;
+                let inner = match g.rng.below(4) {
+                    0 => Sel::Field { alias: None, name: "__typename".into(), args: vec![("id".into(), V::Int(1))], dirs: vec![], sels: vec![] },
+                    1 => Sel::Field { alias: None, name: "__typename".into(), args: vec![("zz".into(), V::Int(1))], dirs: vec![], sels: vec![] },
+                    2 => Sel::Field { alias: None, name: "nope".into(), args: vec![("id".into(), V::Int(1))], dirs: vec![], sels: vec![] },
+                    _ => Sel::Field { alias: None, name: "nope".into(), args: vec![("y".into(), V::Int(1))], dirs: vec![], sels: vec![] },
+                };
+                let idf = Sel::Field { alias: None, name: "id".into(), args: vec![], dirs: vec![], sels: vec![] };
+                sels.push(Sel::Field { alias: Some(g.fresh("a")), name: "node".into(), args: vec![("id".into(), V::Int(1))], dirs: vec![], sels: vec![idf, inner] });
+            }
+            _ => {
+                let (fname, an, aty, rest): (&str, &str, TRef, Vec<(String, V)>) = match g.rng.below(4) {
+                    0 => ("list", "xs", TRef::NonNull(Box::new(TRef::List(Box::new(TRef::Named("Int".into()))))), vec![]),
+                    1 => ("pt", "p", TRef::NonNull(Box::new(TRef::Named("Pt".into()))), vec![]),
+                    2 => ("color", "cs", TRef::List(Box::new(TRef::Named("Color".into()))), vec![("c".into(), V::Enum("RED".into()))]),
+                    _ => ("ll", "xss", TRef::List(Box::new(TRef::List(Box::new(TRef::NonNull(Box::new(TRef::Named("Int".into()))))))), vec![]),
+                };
+                for _ in 0..12 {
+                    let (nv, ns) = (g.vars.len(), g.supplied.len());
+                    let v = g.value(&aty, false, 2);
+                    if g.applied {
+                        let mut args = rest.clone();
+                        args.push((an.to_string(), v));
+                        sels.push(Sel::Field { alias: Some(g.fresh("a")), name: fname.into(), args, dirs: vec![], sels: vec![] });
+                        break;
+                    }
+                    g.vars.truncate(nv);
+                    g.supplied.truncate(ns);
+                }
+            }
+        }
     }
     if g.want("unused_var") {
         g.declare(TRef::Named("Int".into()), None, Some(V::Int(1)));
